@@ -7,7 +7,12 @@
    case with its expected results (exact integers / rationals).
 2. Every case is executed on the real Grid / DbGrid / migrate by harness grid_run, as emitted and
    conjugated by an arbitrary rotation Q applied to the whole scene (grid origin and rotation, query
-   points): decisions are invariant, coordinates are rotated.
+   points): decisions are invariant, coordinates are rotated.  Every case but the query points is
+   also executed on the same grid with its rotation GIVEN AS A MATRIX (Grid::setRotationByMatrix /
+   ByVector): the grid data base and the derived grids are then created through the angles that the
+   library derives from the matrix (as createCoarse, createSubGrid, resetFromGrid ... do), and must
+   sit where the closed forms of GridGeom.tla say.  Grid cases carry the law "matrix -> angles ->
+   matrix is the identity"; migrate cases carry the rank-list / selection arguments.
 3. Comparison: every value observed under the key "<quantity>@<api>" must equal the field <quantity>
    of the case; exactly for integers (indices, ranks, inside/outside, node counts), 1e-9 relative
    for coordinates.
@@ -24,7 +29,11 @@ KINDS = ("grid", "node", "point", "multiple", "divider", "dilate", "subgrid", "m
 # entry points that must have been exercised (vacuity guard), by case kind
 REQUIRED = {
     "grid": ["M@Grid.getRotation.getMatrixDirect", "MI@Grid.getRotation.getMatrixInverse", "g.x0@DbGrid.getX0s",
-             "M@Grid.resetFromGrid.getMatrixDirect", "M@DbGrid.clone.getMatrixDirect"],
+             "M@Grid.resetFromGrid.getMatrixDirect", "M@DbGrid.clone.getMatrixDirect",
+             "M@Grid.copyParams(4).getMatrixDirect", "M@Rotation.setMatrixDirect.getAngles.setAngles.getMatrixDirect",
+             "M@Rotation.setMatrixDirectVec.getAngles.setAngles.getMatrixDirect",
+             "M@GH.rotationGetAnglesInPlace.rotationMatrixInPlace",
+             "M@Grid.setRotationByMatrix.resetFromGrid.getMatrixDirect"],
     "node": ["idx@Grid.rankToIndice", "rank@Grid.indiceToRank", "X@Grid.indicesToCoordinate",
              "X@Grid.indicesToCoordinateInPlace", "X@Grid.rankToCoordinates", "X@Grid.getCoordinate",
              "X@DbGrid.getCoordinate", "X@DbGrid.getFromLocator(X)", "X@DbGrid.getSampleCoordinates",
@@ -41,15 +50,18 @@ REQUIRED = {
               "ri@Grid.sampleBelongsToCell(unique)"],
     "multiple": ["X0@Grid.multiple", "nx@Grid.multiple", "dx@Grid.multiple", "XS@DbGrid.createCoarse.getCoordinate",
                  "XS@DbGrid.createCoarse.columns", "XS@DbGrid.createMultiple.getCoordinate",
-                 "XS@DbGrid.coarsify.getCoordinate"],
+                 "XS@DbGrid.coarsify.getCoordinate", "XS@Grid.multiple.nodes(getRotAngles)"],
     "divider": ["X0@Grid.divider", "nx@Grid.divider", "dx@Grid.divider", "XS@DbGrid.createRefine.getCoordinate",
                 "XS@DbGrid.createRefine.columns", "XS@DbGrid.createDivider.getCoordinate",
-                "XS@DbGrid.refine.getCoordinate"],
-    "dilate": ["X0@Grid.dilate", "nx@Grid.dilate", "dx@Grid.dilate", "XS@Grid.dilate.nodes"],
+                "XS@DbGrid.refine.getCoordinate", "XS@Grid.divider.nodes(getRotAngles)"],
+    "dilate": ["X0@Grid.dilate", "nx@Grid.dilate", "dx@Grid.dilate", "XS@Grid.dilate.nodes(getRotAngles)"],
     "subgrid": ["X0@DbGrid.createSubGrid", "nx@DbGrid.createSubGrid", "XS@DbGrid.createSubGrid.getCoordinate",
                 "XS@DbGrid.createSubGrid.columns"],
     "migrate": ["cells@migrate(grid->points)", "cells@migrateGridToCoor", "rcs@DbGrid.locateDataInGrid",
-                "ris@DbGrid.locateDataInGrid.centered", "ris@index_point_to_grid(0)", "ois@point_inside_grid"],
+                "ris@DbGrid.locateDataInGrid.centered", "ris@index_point_to_grid(0)", "ois@point_inside_grid",
+                "rcsL@DbGrid.locateDataInGrid(list)", "risL@DbGrid.locateDataInGrid(list).centered",
+                "rcsS@DbGrid.locateDataInGrid(useSel)", "risS@DbGrid.locateDataInGrid(useSel).centered",
+                "cellsM@migrate(grid->points,selection)"],
 }
 
 
@@ -142,6 +154,7 @@ class CaseWriter:
         self.conj_every = conj_every          # conjugate the grids whose key hashes to a multiple of this (0 = never)
         self.by_kind = collections.Counter()
         self.nconj = 0
+        self.nmat = 0
         self.base_id = 0
 
     @staticmethod
@@ -172,6 +185,7 @@ class CaseWriter:
         base["one"] = 1
         self.write(base, self.stable(gkey + "|0"))
         self.by_kind[v["k"]] += 1
+        self.by_matrix(base, gkey + "|m0")
         if nd < 2 or not self.conj_every or self.stable(gkey) % self.conj_every:
             return
         Q = self.conj.q(gkey, nd)
@@ -195,6 +209,19 @@ class CaseWriter:
         c["conj"] = 1
         self.write(c, self.stable(gkey + "|1"))
         self.nconj += 1
+        self.by_matrix(c, gkey + "|m1")
+
+    def by_matrix(self, c, key):
+        """The same case on the same grid, its rotation being given to the library as a matrix."""
+        if c["g"]["nd"] < 2 or c["k"] == "point":
+            return
+        m = dict(c)
+        g = {f: c["g"][f] for f in ("nd", "nx", "dx", "x0", "codes")}
+        g["rotmat"] = c["R"]
+        g["by"] = "vector" if self.stable(key) % 2 else "matrix"
+        m["g"] = g
+        self.write(m, self.stable(key))
+        self.nmat += 1
 
     def write(self, c, gid):
         c["id"] = self.base_id + self.n
@@ -218,14 +245,14 @@ def _pool_init(workdir):
 def _convert_batch(args):
     batch_no, records, conj_every, seed = args
     cw = CaseWriter(_wfile, conj_every, seed)
-    cw.base_id = batch_no * 4 * BATCH
+    cw.base_id = batch_no * 8 * BATCH
     try:
         for v in records:
             cw.emit(v)
     except Broken as b:
         return {"error": str(b)}
     _wfile.flush()
-    return {"path": _wpath, "n": cw.n, "ntlc": cw.ntlc, "nconj": cw.nconj, "by_kind": cw.by_kind, "error": None}
+    return {"path": _wpath, "n": cw.n, "ntlc": cw.ntlc, "nconj": cw.nconj, "nmat": cw.nmat, "by_kind": cw.by_kind, "error": None}
 
 
 class ParallelEmitter:
@@ -257,7 +284,7 @@ class ParallelEmitter:
         self.done += [p.get() for p in self.pending]
         self.pool.close()
         self.pool.join()
-        self.n = self.ntlc = self.nconj = 0
+        self.n = self.ntlc = self.nconj = self.nmat = 0
         self.by_kind = collections.Counter()
         paths = set()
         for d in self.done:
@@ -266,6 +293,7 @@ class ParallelEmitter:
             self.n += d["n"]
             self.ntlc += d["ntlc"]
             self.nconj += d["nconj"]
+            self.nmat += d["nmat"]
             self.by_kind.update(d["by_kind"])
             paths.add(d["path"])
         return sorted(paths)
@@ -302,6 +330,9 @@ def describe(case):
     k = case["k"]
     d = {"kind": k, "nd": case["g"]["nd"], "rotated": bool(case["rotated0"]) or bool(case["conj"]),
          "conjugated": bool(case["conj"])}
+    d["rotation_by"] = case["g"].get("by", "matrix") if "rotmat" in case["g"] else "angles"
+    R = case["R"]
+    d["gimbal_lock"] = bool(len(R) == 3 and abs(abs(R[2][0]) - 1.0) < 1e-9)      # second angle = +-90 degrees
     if k in ("multiple", "divider"):
         d["cell"] = bool(case["cell"])
         d["unequal_factors"] = len(set(case["m"])) > 1
@@ -310,6 +341,14 @@ def describe(case):
     if k == "subgrid":
         d["lo_nonzero"] = any(case["lo"])
     return d
+
+
+def through_angles(case, api):
+    """True when the value was obtained through angles that the LIBRARY derived from a rotation matrix."""
+    if api.startswith(("Grid.", "Grid(", "Rotation.", "GH.")):
+        return any(t in api for t in ("resetFromGrid", "copyParams", "getRotAngles", "getAngles", "rotationGetAngles")) and \
+            ("rotmat" in case["g"] or "setRotationByMatrix" in api or "setMatrixDirect" in api or api.startswith("GH."))
+    return "rotmat" in case["g"]          # the grid data base of such a case is created from Grid::getRotAngles
 
 
 def known_defect_origin(case):
@@ -332,6 +371,11 @@ def known_defect_origin(case):
 
 
 def signature(case, q, obs, exp):
+    if q in ("rcsS", "risS"):
+        # DbGrid::locateDataInGrid(useSel): only the first <number of active samples> samples are scanned
+        mask, full = case["selmask"], case["rcs" if q == "rcsS" else "ris"]
+        nact = sum(mask)
+        return "only_first_nactive_samples_scanned" if obs == [full[t] for t in range(nact) if mask[t]] else None
     bug, name = known_defect_origin(case)
     if bug is None:
         return None
@@ -417,6 +461,8 @@ def compare_shard(args):
                     continue
                 if q == "cells":
                     exp, ok = c[conv], True
+                elif q == "cellsM":
+                    exp, ok = c[conv + "M"], True
                 else:
                     exp, ok = lookup(c, q)
                 if not ok:
@@ -435,7 +481,8 @@ def compare_shard(args):
             groups = {}
             for key, obs, exp in bad:
                 q, _, api = key.partition("@")
-                rec = dict(attrs, quantity=q, api=api, signature=signature(c, q, obs, exp))
+                rec = dict(attrs, quantity=q, api=api, signature=signature(c, q, obs, exp),
+                           through_derived_angles=through_angles(c, api))
                 kf = Check.known_match(matcher, rec)
                 groups.setdefault(kf["id"] if kf else None, []).append((rec, key, obs, exp))
             for fid, items in groups.items():
@@ -482,8 +529,8 @@ def check(ck, tier):
         raise Broken("GridGeom.tla violates its own invariant (the model is wrong):\n" + res.violation)
     if cw.ntlc != res.distinct:
         raise Broken("TLC printed %d cases for %d distinct states" % (cw.ntlc, res.distinct))
-    log("[C16] MC_GridGeom %s: %d states (cases), invariant holds, %.1fs; %d harness cases (%d conjugated)" %
-        (tier, res.distinct, res.wall, cw.n, cw.nconj))
+    log("[C16] MC_GridGeom %s: %d states (cases), invariant holds, %.1fs; %d harness cases (%d conjugated, %d with the "
+        "rotation given as a matrix)" % (tier, res.distinct, res.wall, cw.n, cw.nconj, cw.nmat))
     for k in KINDS:
         if cw.by_kind[k] == 0:
             raise Broken("vacuous: no case of kind %s" % k)
@@ -536,6 +583,7 @@ def check(ck, tier):
     ck.cov["evaluations"] = stats["values"]
     ck.cov["distinct_nontrivial"] = stats["rot"]
     ck.cov["cases_conjugated_by_arbitrary_rotation"] = cw.nconj
+    ck.cov["cases_with_rotation_given_as_matrix"] = cw.nmat
     ck.cov["entry_points_exercised"] = len(set(a.split(":", 1)[1].split("@", 1)[1] for a in stats["api"]))
     ck.cov["comparisons_by_kind"] = dict(stats["kind"])
     ck.cov["migrate_cell_convention_observed"] = {"rcs": "cell with its node at the lower corner (centered=false)",
